@@ -31,6 +31,8 @@ type Case struct {
 	Uses         []string
 	Thunks       []bool // function i takes no parameter; the counter lives in an atom
 	AfterStepper []int  `json:",omitempty"` // commands a debugger stepper answered in a session that ended BEFORE the loop runs
+	Meta         []bool `json:",omitempty"` // function i went through with-meta before it was bound
+	Variadic     []bool `json:",omitempty"` // function i takes (n & r)
 	Long         bool   // also run longIterations iterations in a child process under a small maximum stack
 }
 
@@ -105,6 +107,8 @@ func genCase(t *rapid.T) Case {
 		g.uses["call:"+call] = true
 		c.Calls = append(c.Calls, call)
 		c.Thunks = append(c.Thunks, g.pick("thunk", 4) == 0)
+		c.Meta = append(c.Meta, g.pick("meta", 5) == 0)
+		c.Variadic = append(c.Variadic, g.pick("variadic", 5) == 0)
 	}
 	for u := range g.uses {
 		c.Uses = append(c.Uses, u)
@@ -154,11 +158,20 @@ func program(c Case) string {
 			callText = "(" + next + " " + arg + ")"
 		}
 		body := fmt.Sprintf("(if (< n 1) (depth!) %s)", strings.Replace(b, "HOLE", callText, 1))
+		fnText := fmt.Sprintf("(fn (n) %s)", body)
 		if thunk(i) {
-			sb.WriteString(fmt.Sprintf("(def f%d (fn () (let (n @ctr) %s)))\n", i, body))
-		} else {
-			sb.WriteString(fmt.Sprintf("(def f%d (fn (n) %s))\n", i, body))
+			fnText = fmt.Sprintf("(fn () (let (n @ctr) %s))", body)
+		} else if i < len(c.Variadic) && c.Variadic[i] {
+			fnText = fmt.Sprintf("(fn (n & more) %s)", body)
 		}
+		if i < len(c.Meta) && c.Meta[i] {
+			if i%2 == 0 {
+				fnText = "(with-meta " + fnText + " {:doc \"annotated\"})"
+			} else {
+				fnText = "^{:doc \"annotated\"} " + fnText
+			}
+		}
+		sb.WriteString(fmt.Sprintf("(def f%d %s)\n", i, fnText))
 	}
 	return sb.String()
 }
@@ -348,5 +361,17 @@ func TestEachContext(t *testing.T) {
 			}
 		}
 	}
-	pbt.Exhaustive("every tail context alone x call style x {self, mutual} recursion", n)
+	for _, tc := range tailCtx {
+		for _, v := range []Case{{Meta: []bool{true}}, {Variadic: []bool{true}}, {Meta: []bool{false, true}, Bodies: []string{tc.text, "HOLE"}, Calls: []string{"plain", "plain"}}, {Variadic: []bool{false, true}, Bodies: []string{tc.text, "HOLE"}, Calls: []string{"plain", "plain"}}} {
+			if v.Bodies == nil {
+				v.Bodies, v.Calls = []string{tc.text}, []string{"plain"}
+			}
+			v.Uses = []string{tc.name, "call:plain", "annotated-or-variadic"}
+			n++
+			if !pbt.RunOne(t, P, v) {
+				return
+			}
+		}
+	}
+	pbt.Exhaustive("every tail context alone x call style x {self, mutual} recursion, and x {function with metadata, variadic function}", n)
 }
